@@ -14,7 +14,7 @@ import vlib
 COMP_SRCS = ["harness/comp/comp.cpp"]
 PLAN = {"C17": (["vbyte", "logseq", "daclayout", "layoutproofs"], ["vbyte", "logseq", "dacvls"]),
         "C18": (["codes", "chunk"], ["codes", "tabledec"]),
-        "C19": (["succinct"], ["bitseq", "wt"]),
+        "C19": (["succinct", "rg"], ["bitseq", "wt"]),
         "C20": (["repair"], ["repair"])}
 _bad_re = re.compile(r'^<<"BAD", "(.*)">>$')
 
